@@ -7,6 +7,8 @@ SPEC = {
         'C01_set_preserves_order', 'C01_set_preserves_avl', 'C01_get_set', 'C01_get_is_lookup',
         'C01_traverse_range', 'C01_iterate_range', 'C01_root_identifies_tree', 'C01_save_monotone',
         'C01_load_save', 'C01_state_sorted', 'C01_state_last_write', 'C01_versioned_map',
+        'C01_has', 'C01_get_index', 'C01_get_by_index', 'C01_remove_preserves_order', 'C01_tree_remove',
+        'C01_remove_preserves_avl',
     ],
     'allowed_axioms': [],
     'shard': 8,
@@ -41,11 +43,12 @@ SPEC = {
         'Go loads lazily and skips nodes flagged persisted - same resulting map (binding counts are compared)',
         'EnableMVCC, EnableMavlPrune, EnableMemTree are out of scope here (C02, C05); EnableMavlPrefix is exercised '
         'on the implementation side against the same model (it only changes database keys)',
-        'remove/DelKVPair is modelled (Model.remove) but not on the block path (Store.Del is a stub); no theorem yet',
+        'remove/DelKVPair is modelled, proved at tree level and exercised by the harness, but it is not on the block path '
+        '(Store.Del is a stub): the versioned-map theorem quantifies over write batches only',
     ],
     'manifest': {
         'level_text': 'full for the sequential store: unbounded Coq theorems for set/get/range/save/load and the '
-                      'versioned-map theorem over all batch histories; remove is modelled but unproved',
+                      'versioned-map theorem over all histories of write batches; remove is proved at tree level only',
         'level_note': 'symbolic (injective) hash; LevelDB and the node cache as oracles; shape observed through an add-only dump hook',
         'technique': 'Coq proof (structural induction on trees, invariant over batch histories, content-addressed '
                      'database refinement) + in-kernel correspondence check on generated histories',
